@@ -162,8 +162,16 @@ func TestC03(t *testing.T) {
 	if thorough() {
 		aLen = 6
 	}
+	g0 := newRng(33)
 	for _, ty := range smallTypes() {
-		allStrings(full, 2, func(d []byte) { do("ex2", ty, d) })
+		allStrings(full, 1, func(d []byte) { do("ex1", ty, d) })
+		if thorough() {
+			allStrings(full, 2, func(d []byte) { do("ex2", ty, d) })
+		} else {
+			for k := 0; k < 2500; k++ {
+				do("s2", ty, []byte{byte(g0.Intn(256)), byte(g0.Intn(256))})
+			}
+		}
 		allStrings(alpha, aLen, func(d []byte) { do("exa", ty, d) })
 	}
 	// leaf types at exactly their size (valid + bool 2)
